@@ -199,7 +199,17 @@ def run(model: Model, rep: Report) -> None:
     r10 = rep.rule("C18-R10", "BIND", "LTImage takes name, stream, size (Width, Height), mask flag, bits (default 1) and colour space (as a list) from the image's own dictionary; the layout analyzer wraps the stream it was given", 3)
     li = model.func("pdfminer.layout.LTImage.__init__")
     sl = "".join(unparse(li.node).split())
-    r10.check("self.name=name" in sl and "self.stream=stream" in sl and "self.srcsize=(stream.get_any(('W','Width')),stream.get_any(('H','Height')))" in sl and "self.imagemask=stream.get_any(('IM','ImageMask'))" in sl and "self.bits=stream.get_any(('BPC','BitsPerComponent'),1)" in sl and "self.colorspace=stream.get_any(('CS','ColorSpace'))" in sl and "ifnotisinstance(self.colorspace,list):self.colorspace=[self.colorspace]" in sl, site(li), li.qualname, "fields bound from the abbreviated or full dictionary keys", why="LTImage.__init__ changed")
+    slr = sl.replace("resolve1(stream.get_any(('W','Width')))", "stream.get_any(('W','Width'))").replace("resolve1(stream.get_any(('H','Height')))", "stream.get_any(('H','Height'))").replace("resolve1(stream.get_any(('IM','ImageMask')))", "stream.get_any(('IM','ImageMask'))").replace("resolve1(stream.get_any(('BPC','BitsPerComponent'),1))", "stream.get_any(('BPC','BitsPerComponent'),1)").replace("resolve1(stream.get_any(('CS','ColorSpace')))", "stream.get_any(('CS','ColorSpace'))")
+    r10.check("self.name=name" in slr and "self.stream=stream" in slr and "self.srcsize=(stream.get_any(('W','Width')),stream.get_any(('H','Height')))" in slr and "self.imagemask=stream.get_any(('IM','ImageMask'))" in slr and "self.bits=stream.get_any(('BPC','BitsPerComponent'),1)" in slr and "self.colorspace=stream.get_any(('CS','ColorSpace'))" in slr and "ifnotisinstance(self.colorspace,list):self.colorspace=[self.colorspace]" in slr, site(li), li.qualname, "fields bound from the abbreviated or full dictionary keys", why="LTImage.__init__ changed")
+    # an entry of an image dictionary may be an indirect reference (an XObject's /ColorSpace very often is): what the exporter
+    # compares with names and multiplies is the resolved value
+    r17 = rep.rule("C18-R17", "BIND", "LTImage: every value read from the image dictionary is resolved before it is stored (size, bits, mask flag, colour space)", 5)
+    reads = [c for c in ast.walk(li.node) if isinstance(c, ast.Call) and isinstance(c.func, ast.Attribute) and c.func.attr == "get_any"]
+    if len(reads) < 5:
+        raise AnchorMissing("LTImage.__init__: reads of the image dictionary not found")
+    for c in reads:
+        wrapped = any(isinstance(n, ast.Call) and (dotted(n.func) or "") in ("resolve1", "int_value", "num_value", "list_value", "literal_name") and n.args and n.args[0] is c for n in ast.walk(li.node))
+        r17.check(wrapped, site(li, c), li.qualname, f"{unparse(c)} is the argument of a resolving accessor", why=f"`{unparse(c)}` is stored as the document wrote it: given as an indirect reference, the colour space is not recognised (an RGB image is exported as a raw .img dump) and a size or bit depth raises TypeError in the exporter")
     ri = model.func("pdfminer.converter.PDFLayoutAnalyzer.render_image")
     sr = "".join(unparse(ri.node).split())
     r10.check("item=LTImage(name,stream,(self.cur_item.x0,self.cur_item.y0,self.cur_item.x1,self.cur_item.y1))" in sr and sr.endswith("self.cur_item.add(item)"), site(ri), ri.qualname, "render_image wraps (name, stream) with the enclosing figure's box and adds it to that figure", why="changed")
